@@ -99,6 +99,8 @@ type HarnessRun struct {
 	catches    []*catchRec
 	pruneForks bool
 	noMerge    bool
+	gen        map[*Term]*Term // active generalisation: term -> fresh symbol (vGeneralize)
+	genSt      *Store
 	enumFn     *ssa.Function // path enumeration restricted to the frames of this function (vLoopStep)
 	loopOut    map[string]Value
 	stopOnTaint bool
@@ -144,6 +146,20 @@ func (h *HarnessRun) addUnwind(e *Engine, s *State, pos string) {
 }
 
 func (h *HarnessRun) add(ob *Obligation) {
+	if len(h.gen) > 0 {
+		// generalisation: the obligation is stated (and must hold) for arbitrary values in place of the
+		// generalised terms, constrained only by the hypotheses that mention them
+		cache := map[*Term]*Term{}
+		hy := make([]*Term, len(ob.Hyps))
+		for i, t := range ob.Hyps {
+			hy[i] = h.genSt.substitute(t, h.gen, cache)
+		}
+		ob.Hyps = hy
+		if ob.Goal != nil {
+			ob.Goal = h.genSt.substitute(ob.Goal, h.gen, cache)
+		}
+		ob.Msg += " [generalised]"
+	}
 	ob.InvPairs = append([][2]*Term{}, h.invPairs...)
 	ob.InvMod = h.invMod
 	ob.Harness = h.Name
@@ -592,6 +608,72 @@ func init() {
 				return e.st.BVu(1, e.intw)
 			}
 			return e.st.BVu(0, e.intw)
+		},
+		// vCallerLocal(name) is for contract functions installed with vReplace: it returns a pointer to the
+		// address-taken local variable `name` of the function that called the replaced callee (the frame below
+		// the contract function), so that a staged proof can state facts about intermediate values of the caller
+		"vCallerLocal": func(e *Engine, fr *Frame, s *State, f *ssa.Function, args []Value, pos string) Value {
+			name := constStr(args[0], "variable name")
+			// frames: ..., caller, contract function (fr); harness helpers called from the contract are skipped
+			var caller *Frame
+			for i := len(e.frames) - 1; i >= 0; i-- {
+				if !e.frames[i].harn {
+					caller = e.frames[i]
+					break
+				}
+			}
+			if caller == nil {
+				panic(unsupported("vCallerLocal: no calling frame at %s", pos))
+			}
+			for reg, v := range caller.regs {
+				if a, ok := reg.(*ssa.Alloc); ok && a.Comment == name {
+					return &Iface{Dyn: a.Type(), Val: v}
+				}
+			}
+			panic(unsupported("vCallerLocal: %s has no address-taken local %q (executed so far) at %s", caller.fn.String(), name, pos))
+		},
+		// vGeneralize(p, n, name): for the obligations created from now on (until vGeneralizeOff) the current
+		// values of the n cells p points to are replaced by fresh symbols name0..: a proof of the generalised
+		// obligation is a proof of the original one (the fresh symbols range over at least the actual values,
+		// being constrained only by hypotheses that were themselves stated about those values)
+		"vGeneralize": func(e *Engine, fr *Frame, s *State, f *ssa.Function, args []Value, pos string) Value {
+			p := args[0].(*Iface).Val.(*Ptr)
+			n := constInt(args[1], "cell count")
+			name := constStr(args[2], "name")
+			if e.H.gen == nil {
+				e.H.gen = map[*Term]*Term{}
+			}
+			e.H.genSt = e.st
+			for k := 0; k < n; k++ {
+				t, ok := e.load(s, e.ptrAdd(p, k), leafT, pos, fr).(*Term)
+				if !ok || t.IsConst() || t.Op == OSym {
+					continue
+				}
+				if _, dup := e.H.gen[t]; dup {
+					continue
+				}
+				fresh := e.st.Sym(fmt.Sprintf("%s%d", name, k), t.S)
+				e.H.gen[t] = fresh
+				// later reads of the cell (by the harness) see the fresh symbol directly: conversions of the
+				// old value may have been simplified into forms that no longer contain its node
+				e.storeRaw(s, e.ptrAdd(p, k), fresh)
+			}
+			return nil
+		},
+		// assumptions made for one stage of a staged proof are dropped again with vAssumeReset(vAssumeMark())
+		"vAssumeMark": func(e *Engine, fr *Frame, s *State, f *ssa.Function, args []Value, pos string) Value {
+			return e.st.BVu(uint64(len(e.H.assumes)), e.intw)
+		},
+		"vAssumeReset": func(e *Engine, fr *Frame, s *State, f *ssa.Function, args []Value, pos string) Value {
+			n := constInt(args[0], "mark")
+			if n <= len(e.H.assumes) {
+				e.H.assumes = e.H.assumes[:n]
+			}
+			return nil
+		},
+		"vGeneralizeOff": func(e *Engine, fr *Frame, s *State, f *ssa.Function, args []Value, pos string) Value {
+			e.H.gen = nil
+			return nil
 		},
 		"vLoopOutInt": func(e *Engine, fr *Frame, s *State, f *ssa.Function, args []Value, pos string) Value {
 			v, ok := e.H.loopOut[constStr(args[0], "phi name")]
